@@ -486,6 +486,12 @@ FIXED += [
       "steps": [S(), st("v1", "mutate", "v0", items=[["z", ["case", [[C("c"), C("f")]], C("id")]]])], "result": "v1", "validate": "check"}),
 ]
 
+FIXED += [
+    ('F67-polars-join-int-float-key', 'C06', 'Polars join with an integer key on one side and a float key on the other',
+     "Polars: join(on= int_col == float_col) raised SchemaError (datatypes of join keys don't match); SQL accepts it",
+     json.loads('{"result": "v8", "steps": [{"out": "v0", "table": "t1", "verb": "source"}, {"in": "v0", "items": [["b_r", ["fn", "min", [["fn", "fill_null", [["lit", -11], ["fn", "add", [["col", {"c": "a"}], ["col", {"n": "a", "v": "v0"}]], {}]], {}]], {"filter": [["fn", "fill_null", [["fn", "gt", [["col", {"n": "a", "v": "v0"}], ["col", {"n": "a", "v": "v0"}]], {}], ["fn", "hany", [["col", {"c": "a"}], ["col", {"n": "a", "v": "v0"}], ["col", {"c": "a"}], ["col", {"n": "a", "v": "v0"}], ["lit", false], ["col", {"n": "a", "v": "v0"}]], {}]], {}], ["fn", "is_not_null", [["col", {"c": "a"}]], {}]]}]]], "out": "v5", "verb": "summarize"}, {"out": "v6", "table": "t0", "verb": "source"}, {"in": "v6", "items": [["b", ["lit", -139.0, "float64"]]], "out": "v7", "verb": "mutate"}, {"how": "inner", "in": "v5", "on": [["fn", "eq", [["col", {"n": "b_r", "v": "v5"}], ["col", {"n": "b", "v": "v7"}]], {}]], "out": "v8", "right": "v7", "verb": "join"}], "tables": [{"cols": [["id", "int64"], ["y", "datetime"], ["c", "datetime"], ["x", "int64"]], "name": "t0", "rows": []}, {"cols": [["id", "int64"], ["x", "str"], ["d", "datetime"], ["a", "bool"]], "name": "t1", "rows": []}]}')),
+]
+
 
 def main():
     log = subprocess.run(["git", "-C", "/repo", "log", "--format=%h %s"], capture_output=True, text=True).stdout.splitlines()
